@@ -22,7 +22,7 @@ func init() {
 		"non-trivial = differs from base; distinct = (source hash, document)"
 }
 
-var c15Devs = []string{"SIZED_INT_ENUM_REJECTS_ALL"}
+var c15Devs = []string{"SIZED_INT_ENUM_REJECTS_ALL", "SIZED_BOUNDS_STRIPPED_FROM_SHARED_SCHEMA"}
 
 func bi(s string) *big.Int {
 	n, _ := new(big.Int).SetString(s, 10)
@@ -64,6 +64,13 @@ func c15Shapes(level int) []c15Shape {
 		if level >= 1 {
 			addv(new(big.Int).Add(l, big.NewInt(1)))
 			addv(new(big.Int).Sub(l, big.NewInt(1)))
+		}
+	}
+	if level == 0 {
+		// the neighbours of the 8-bit limits and of zero also in the quick tier: "one step outside a type" is where the +-1 of
+		// exclusive bounds and the choice of the type interact
+		for _, n := range []string{"-129", "-1", "1", "128", "256"} {
+			addv(bi(n))
 		}
 	}
 	sort.Slice(vals, func(i, j int) bool { return vals[i].Cmp(vals[j]) < 0 })
@@ -196,6 +203,56 @@ func c15(ctx *Ctx) {
 			}
 			verdicts[k] = v
 		},
+	})
+	// the same integer schema visited twice by the generator: as the property of a definition, and again when a composite list
+	// that contains a $ref to that definition is merged
+	var shared []SCase
+	sharedShape := map[string]c15Shape{}
+	small := func(n *big.Int) bool { return n == nil || (n.Cmp(bi("-200")) >= 0 && n.Cmp(bi("300")) <= 0) }
+	for _, sh := range shapes {
+		_, e1 := sh.s["exclusiveMinimum"]
+		_, e2 := sh.s["exclusiveMaximum"]
+		if e1 || e2 || (ctx.Level == 0 && !(small(sh.lo) && small(sh.hi))) {
+			continue
+		}
+		for _, sized := range []bool{false, true} {
+			cfg := baseCfg()
+			cfg.MinSizedInts = sized
+			root := J{"type": "object",
+				"properties": J{"c": J{"allOf": A{J{"$ref": "#/$defs/Base"}, J{"type": "object", "properties": J{"o": J{"type": "string"}}}}}, "b": J{"$ref": "#/$defs/Base"}},
+				"$defs":      J{"Base": J{"type": "object", "properties": J{"v": sh.s}}}}
+			id := fmt.Sprintf("C15/shared/%s/sized=%v", sh.name, sized)
+			sharedShape[id] = sh
+			shared = append(shared, SCase{ID: id, Schema: root, Cfg: cfg, Axes: map[string]string{"pos": "shared", "leaf": "shared/" + sh.name, "sized": fmt.Sprint(sized)}})
+		}
+	}
+	runBehaviour(ctx, behaviour{Name: "shared", Cases: shared, Devs: c15Devs,
+		DocGen: func(sc *SCase, m *refmodel.Model) []refmodel.Doc {
+			var out []refmodel.Doc
+			for _, d := range c15Docs(sharedShape[sc.ID]) {
+				dm := d.V.(map[string]any)
+				rv, ok := dm["r"]
+				if !ok || (d.Class != "base" && d.Class != "num:r") {
+					continue
+				}
+				base := c15Docs(sharedShape[sc.ID])[0].V.(map[string]any)["r"]
+				for _, where := range []string{"c", "b"} {
+					o := map[string]any{"c": map[string]any{"v": base}, "b": map[string]any{"v": base}}
+					o[where] = map[string]any{"v": rv}
+					cls := "num:" + where
+					if d.Class == "base" {
+						if where == "b" {
+							continue
+						}
+						cls = "base"
+					}
+					out = append(out, refmodel.Doc{V: o, Text: jsonv.Text(o), Class: cls})
+				}
+			}
+			return out
+		},
+		// every document of this family has a specified model verdict, and both programs are compared with the model: the
+		// flag-on / flag-off differential is implied
 	})
 	n := 0
 	for k, v := range verdicts {
